@@ -66,7 +66,19 @@ RAISING_DOCS = [
     f'<svg {_NSX} viewBox="0 0 100 100"><rect width="10" height="10" fill="url(#lg0)" transform="scale(2)"/></svg>',
     f'<svg {_NSX} viewBox="0 0 100 100"><g opacity=".5"><rect width="10" height="10"/><filter id="f0"/></g><rect width="10" height="10" clip-path="url(#c0)"/></svg>',
     f'<svg {_NSX} viewBox="0 0 100 100"><svg width="50" height="50" viewBox="0 0 0 10"><rect width="10" height="10"/></svg><svg x="5" width="20" height="20"><rect width="30" height="30"/></svg></svg>',
+    # failures INSIDE the resolution of a clipPath / gradient template / use / nested svg / stroke (after the step has begun)
+    f'<svg {_NSX} viewBox="0 0 100 100"><defs><clipPath id="c0"><text>hi</text></clipPath></defs><rect width="40" height="40" clip-path="url(#c0)"/></svg>',
+    f'<svg {_NSX} viewBox="0 0 100 100"><defs><clipPath id="c0"/></defs><rect width="40" height="40" clip-path="url(#c0)"/></svg>',
+    f'<svg {_NSX} viewBox="0 0 100 100"><defs><clipPath id="c0" clip-path="url(#zz)"><rect width="5" height="5"/></clipPath></defs><rect width="40" height="40" clip-path="url(#c0)"/></svg>',
+    f'<svg {_NSX} viewBox="0 0 100 100"><defs><clipPath id="c0"><g><rect width="5" height="5"/></g></clipPath></defs><rect width="40" height="40" clip-path="url(#c0)"/></svg>',
+    f'<svg {_NSX} viewBox="0 0 100 100"><defs><linearGradient id="lg0" xlink:href="#zz"/><linearGradient id="hg0" xlink:href="#lg0"/></defs><rect x="15" y="65" width="50" height="25" fill="url(#hg0)"/></svg>',
+    f'<svg {_NSX} viewBox="0 0 100 100"><defs><linearGradient id="tp0"><stop offset="0"/></linearGradient><linearGradient id="hg0" xlink:href="#tp0" gradientTransform="bogus(3)"/></defs><ellipse cx="50" cy="20" rx="30" ry="10" fill="url(#hg0)"/></svg>',
+    f'<svg {_NSX} viewBox="0 0 100 100"><defs><g id="t0"><rect width="8" height="8"/><use xlink:href="#zz"/></g></defs><use xlink:href="#t0" x="5" y="70"/></svg>',
+    f'<svg {_NSX} viewBox="0 0 100 100"><svg x="10" y="10" width="40" height="30" viewBox="0 0 80"><rect width="70" height="40"/></svg></svg>',
+    f'<svg {_NSX} viewBox="0 0 100 100"><rect x="5" y="5" width="20" height="20" stroke="black" stroke-dasharray="3 x"/></svg>',
 ]
+# href gradients WITH stops of their own, templates before / after their users (ids g, t, t1, t2 as in C06's documents)
+TEMPLATE_DOCS = []
 
 
 def corpus(tier):
@@ -77,6 +89,13 @@ def corpus(tier):
     for k in ["gop:rect+circle", "gop:stroked+lingrad", "gxf:rect+lingrad", "gclip:circle+lingrad", "gfill:rect+stroked", "gopxf:lingrad+circle"]:
         docs.append(G.document([k], "fill"))
     docs += ATTR_HEAVY
+    from mc.props import c06
+
+    for k in (("linear", "numbers", "userSpaceOnUse", "rotate", "pad", "attrs", "none", "rect", "none"), ("radial", "numbers", "objectBoundingBox", "none", "reflect", "chain3own", "fxfy", "circle", "translate"),
+              ("linear", "numbers", "objectBoundingBox", "matrix", "pad", "partial-after", "none", "rect", "none"), ("linear", "defaults", "userSpaceOnUse", "translate", "repeat", "chain-rev", "none", "path", "groupmatrix"),
+              ("radial", "percent", "userSpaceOnUse", "scaletr", "pad", "stops", "fr", "rect", "rotscale")):
+        docs.append(c06.document(*k))
+    docs.append(c06.shared_document("linear", "numbers", "objectBoundingBox", "rotate", "rect+circle", "translate", "matrix", "group-b"))
     from mc.props import c08, c15
 
     docs += list(c15.ROOTS.values())
@@ -424,7 +443,7 @@ def run(run):
     if run.tier == "quick":
         okidx = [i for i in alpha if not str(solo.get(i, "EXC")).startswith("EXC")]
         raising = [i for i in alpha if str(solo.get(i, "EXC")).startswith("EXC")]
-        alpha = raising[:10] + okidx[:34] + [i for i in okidx if docs[i][1]][:8]
+        alpha = raising[:24] + okidx[:34] + [i for i in okidx if docs[i][1]][:8]
     n_states = 0
     canons = {}
     t0 = time.time()
